@@ -1,2 +1,169 @@
-From Coq Require Import List String.
+(* C13 — generated code computes outputs that satisfy the relation it came
+   from.  Statements only; proofs in theories/L7Codegen/{Bits,Dag,Step}Proofs.v.
+
+   Models (after the F4/F7 repairs of omega/symbolic/codegen.py):
+   Bits.v  int_to_bits, twos_complement_to_int, _append_sign_bit, dom_to_width;
+   Dag.v   dumps_bdd_as_code on a DAG seen through int(u)/u.var/u.negated/
+           bdd.succ, the emitted text as a straight-line program AST with a
+           strict evaluator (fails on use-before-assignment and on a second
+           assignment of a latch);
+   Step.v  dumps_bdds_as_code + the generated step(state);
+   gen/C13_tables.v  the `languages` table extracted from the source text. *)
+From Coq Require Import List Bool Arith ZArith String Lia.
+Import ListNotations.
+From Omega Require Import L7Codegen.Pred L7Codegen.PredFacts L7Codegen.Synth
+  L7Codegen.SynthProofs L7Codegen.Bits L7Codegen.BitsProofs L7Codegen.Dag
+  L7Codegen.DagProofs L7Codegen.Step L7Codegen.StepProofs.
 From OmegaGen Require Import C13_tables.
+
+(* (1) int_bits_roundtrip: for every type hint (Boolean, unsigned, signed,
+   all-negative; any lo, hi) and every value representable in the bits of the
+   variable (so also values outside lo..hi, negative values and Booleans),
+   decoding (bitfields_to_ints) the bits the generated code reads from
+   assign_bitvectors gives the value back. *)
+Theorem C13_int_bits_roundtrip : forall t v,
+  representable t v ->
+  decode t (firstn (nbits t) (encode t v)) = v.
+Proof. exact int_bits_roundtrip. Qed.
+
+(* (2) straightline_correct: for every DAG whose levels strictly increase
+   along edges, every list of named roots and every input a, the emitted
+   program runs without reading an unassigned latch or assigning one twice,
+   and leaves in out_bits exactly the roots' names, each with the value of
+   the BDD at a. *)
+Theorem C13_straightline_correct : forall d nlev a roots,
+  wf_dag d nlev = true ->
+  (forall r, In r roots -> root_ok_p d nlev (snd r)) ->
+  run a (dumps_bdd_as_code nlev d roots)
+  = Some (map (fun r => (fst r, ref_val (S nlev) d a (snd r))) roots).
+Proof. intros d nlev a roots WF. exact (straightline_correct d nlev WF a roots). Qed.
+
+Theorem C13_latches_assigned_once : forall d nlev roots,
+  wf_dag d nlev = true ->
+  (forall r, In r roots -> root_ok_p d nlev (snd r)) ->
+  NoDup (assigned (dumps_bdd_as_code nlev d roots)).
+Proof. intros d nlev roots WF. exact (latches_assigned_once d nlev WF [] roots). Qed.
+
+(* (3) step_correct: for every number of bits, relation r over the bits,
+   layout of typed variables, requested outputs, iteration order and
+   `restrict` meeting the contract of C14, and every state of representable
+   values of non-output variables for which some assignment of the output
+   bits satisfies r: the completed bit assignment a' satisfies r, decodes to
+   the given state on the state's variables, and step returns exactly the
+   requested output variables with the values a' decodes to. *)
+Theorem C13_step_correct :
+  forall n restrict, restrict_agrees n restrict -> restrict_support n restrict ->
+  forall ly out_vars r order,
+  layout_ok n ly -> (forall x, In x out_vars -> x < List.length ly) ->
+  forall state,
+  order_ok n r (list_bits ly out_vars) order ->
+  state_ok ly out_vars state ->
+  let a := assign_bitvectors n ly state in
+  (exists b, agree_out (list_bits ly out_vars) a b /\ r b = true) ->
+  let a' := apply_functions (functions n restrict ly out_vars r order) a in
+  r a' = true /\
+  (forall x v, In (x, v) state ->
+     decode (var_type ly x) (read_bits a' (var_bits ly x)) = v) /\
+  step n restrict ly out_vars r order state
+  = map (fun x => (x, decode (var_type ly x) (read_bits a' (var_bits ly x)))) out_vars.
+Proof. exact step_correct. Qed.
+
+(* the same when compute_bdds executes the program emitted for a well-formed
+   DAG whose references denote the extracted functions (this link between the
+   manager's DAG and the function is the trusted meaning of dd, re-checked by
+   the correspondence on every sampled DAG) *)
+Theorem C13_step_through_program :
+  forall n restrict ly out_vars r order d nlev keys state,
+  wf_dag d nlev = true ->
+  (forall k, In k keys -> root_ok_p d nlev k) ->
+  (forall a, Forall2 (fun k e => ref_val (S nlev) d a k = fst (snd e) a) keys
+               (functions n restrict ly out_vars r order)) ->
+  step_prog n ly out_vars nlev d
+    (combine (map fst (functions n restrict ly out_vars r order)) keys) state
+  = Some (step n restrict ly out_vars r order state).
+Proof. exact step_prog_correct. Qed.
+
+(* (4) tie G, by computation over the extracted table (the bound is the
+   table): both targets are present, define the same keys, and define every
+   key the emitter subscripts *)
+Definition has_key (k : string) (t : list (string * string)) : bool :=
+  existsb (fun e => String.eqb k (fst e)) t.
+Definition same_keys (s t : list (string * string)) : bool :=
+  forallb (fun e => has_key (fst e) t) s && forallb (fun e => has_key (fst e) s) t.
+Theorem C13_languages_same_keys_bounded :
+  existsb (fun l => String.eqb "python" (fst l)) languages = true /\
+  existsb (fun l => String.eqb "c" (fst l)) languages = true /\
+  forallb (fun l1 => forallb (fun l2 => same_keys (snd l1) (snd l2)) languages)
+          languages = true /\
+  forallb (fun l => forallb (fun k => has_key k (snd l)) used_keys) languages = true.
+Proof. vm_compute. repeat split; reflexivity. Qed.
+
+(* --- the hypotheses are satisfiable ---------------------------------------- *)
+(* a DAG with a complemented edge: root -5 = not (b0 and b1) *)
+Definition ex_dag : dag :=
+  [ (1%Z, mk_info true false 0 0 0 0); ((-1)%Z, mk_info true true 0 0 0 0);
+    (4%Z, mk_info false false 1 1 (-1) 1); (5%Z, mk_info false false 0 0 (-1) 4);
+    ((-5)%Z, mk_info false true 0 0 (-1) 4) ].
+Example C13_straightline_instance :
+  wf_dag ex_dag 2 = true /\
+  (forall r, In r [(0, (-5)%Z); (1, 5%Z)] -> root_ok_p ex_dag 2 (snd r)) /\
+  run [true; true] (dumps_bdd_as_code 2 ex_dag [(0, (-5)%Z); (1, 5%Z)])
+  = Some [(0, false); (1, true)].
+Proof.
+  split; [vm_compute; reflexivity|]. split; [|vm_compute; reflexivity].
+  intros r [<-|[<-|[]]]; eexists; (split; [vm_compute; reflexivity|right; cbn; lia]).
+Qed.
+
+(* x in -1..1 (bits 0,1), requested output x' (bits 2,3), relation x' = x,
+   state x = -2 (representable in the two bits, outside the hint) *)
+Definition ex_ly : layout := [(TInt (-1) 1, [0; 1]); (TInt (-1) 1, [2; 3])].
+Definition ex_rel : pred :=
+  fun a => Bool.eqb (get a 2) (get a 0) && Bool.eqb (get a 3) (get a 1).
+Example C13_step_instance :
+  layout_ok 4 ex_ly /\ state_ok ex_ly [1] [(0, VZ (-2))] /\
+  order_ok 4 ex_rel (list_bits ex_ly [1]) [(3, [0; 1]); (2, [0; 1])] /\
+  (exists b, agree_out (list_bits ex_ly [1])
+               (assign_bitvectors 4 ex_ly [(0, VZ (-2))]) b /\ ex_rel b = true) /\
+  step 4 no_restrict ex_ly [1] ex_rel [(3, [0; 1]); (2, [0; 1])] [(0, VZ (-2))]
+  = [(1, VZ (-2))].
+Proof.
+  split; [|split; [|split; [|split]]].
+  - split.
+    + intros x Hx.
+      assert (N : forall p q : nat, p <> q -> NoDup [p; q]).
+      { intros p q Npq. constructor; [intros [E|[]]; congruence|].
+        constructor; [intros []|constructor]. }
+      destruct x as [|[|x]]; [| |cbn in Hx; lia];
+        cbn [var_bits var_type ex_ly nth fst snd nbits];
+        (split; [apply N; lia|]);
+        (split; [intros p [<-|[<-|[]]]; lia|vm_compute; reflexivity]).
+    + intros x x' p Hx Hx' Hp Hp'.
+      destruct x as [|[|x]]; [| |cbn in Hx; lia];
+        (destruct x' as [|[|x']]; [| |cbn in Hx'; lia]);
+        cbn [var_bits ex_ly nth snd In] in Hp, Hp'; try reflexivity; exfalso; lia.
+  - split; [repeat constructor; intros []|].
+    intros x v [E|[]]. injection E as <- <-. cbn. repeat split; try lia. intros [E|[]]. lia.
+  - split; [repeat constructor; cbn; intuition lia|].
+    intro y. cbn [map fst In list_bits flat_map var_bits ex_ly nth snd app]. split.
+    + intros [<-|[<-|[]]]; (split; [cbn; tauto|vm_compute; reflexivity]).
+    + intros [[<-|[<-|[]]] _]; tauto.
+  - exists [false; true; false; true]. split; [|reflexivity].
+    split; [reflexivity|]. intros i Hi.
+    destruct i as [|[|[|[|i]]]]; try reflexivity; exfalso; apply Hi; cbn; tauto.
+  - vm_compute. reflexivity.
+Qed.
+
+(* regression examples for the defects repaired by fixes/F4.patch: with the
+   old int_to_bits, x = -3 under the hint -3..3 decoded to +1 *)
+Example C13_refuted_neg_old_code :
+  representable (TInt (-3) 3) (VZ (-3)) /\
+  twos_complement_to_int (append_sign_bit (-3) 3
+     (firstn 3 (int_to_bits_old (-3) (width_of (-3) 3)))) = 1%Z.
+Proof. exact int_to_bits_old_refuted. Qed.
+
+Print Assumptions C13_int_bits_roundtrip.
+Print Assumptions C13_straightline_correct.
+Print Assumptions C13_latches_assigned_once.
+Print Assumptions C13_step_correct.
+Print Assumptions C13_step_through_program.
+Print Assumptions C13_languages_same_keys_bounded.
